@@ -83,7 +83,7 @@ Record recst := mkR {
   started : bool;
   ops : Z;
   gauge : Z;
-  persisted : list sample          (* oldest first *)
+  persisted : list sample          (* NEWEST first *)
 }.
 
 Record state := mkSt {
@@ -105,7 +105,7 @@ Fixpoint upd {A} (n : nat) (x : A) (l : list A) : list A :=
 (* ---- bodies of the critical sections ---- *)
 Definition persist (by_ : owner) (r : recst) : recst :=
   mkR (canceler r) (stamped r) (started r) (ops r) (gauge r)
-      (persisted r ++ [mkS (ops r) (gauge r) by_]).
+      (mkS (ops r) (gauge r) by_ :: persisted r).
 
 Definition stamp (r : recst) : recst :=
   mkR (canceler r) true (started r) (ops r) (gauge r) (persisted r).
@@ -461,8 +461,8 @@ Record sys_obs := mkObs {
 Definition obs_of (r : option state) : sys_obs :=
   match r with
   | Some s => mkObs (negb (all_returnedb s)) (live_flushers s) O (length (flushers s))
-                    (map s_ops (persisted (rc s)))
-                    (map s_ops (filter by_user (persisted (rc s))))
+                    (rev (map s_ops (persisted (rc s))))
+                    (rev (map s_ops (filter by_user (persisted (rc s)))))
   | None => mkObs true O O O [] []
   end.
 
@@ -488,35 +488,45 @@ Fixpoint spec_end_samples (st : bool) (acc : Z) (p : list call) : list Z :=
    flusher fires (if it waits), each flusher and each user takes one step if enabled ---- *)
 Definition try_step (c : cfg) (s : state) (t : tid) : state :=
   match step c s t with Some s' => s' | None => s end.
-Definition round_tids (s : state) : list tid :=
-  flat_map (fun f => [Tick f; F f]) (seq 0 (length (flushers s))) ++ map U (seq 0 (length (users s))).
-Fixpoint run_rr (c : cfg) (fuel : nat) (s : state) : state :=
+(* the flushers that have not returned *)
+Definition live_fl (s : state) : list nat :=
+  filter (fun f => match nth_error (flushers s) f with
+                   | Some fl => match f_pc fl with FDone => false | _ => true end
+                   | None => false end) (seq 0 (length (flushers s))).
+Definition round_tids (tick : bool) (s : state) : list tid :=
+  flat_map (fun f => if tick then [Tick f; F f] else [F f]) (live_fl s) ++ map U (seq 0 (length (users s))).
+(* [cnt] counts down to the next round with ticks (every 8th round) *)
+Fixpoint run_rr (c : cfg) (fuel : nat) (cnt : nat) (s : state) : state :=
   match fuel with
   | O => s
   | S n => if all_returnedb s then s
-           else run_rr c n (fold_left (try_step c) (round_tids s) s)
+           else match cnt with
+                | O => run_rr c n 7%nat (fold_left (try_step c) (round_tids true s) s)
+                | S m => run_rr c n m (fold_left (try_step c) (round_tids false s) s)
+                end
   end.
 (* let the cancelled flushers finish *)
 Definition drain (c : cfg) (s : state) : state :=
-  fold_left (try_step c) (flat_map (fun f => rep 6 (F f)) (seq 0 (length (flushers s)))) s.
+  fold_left (try_step c) (flat_map (fun f => rep 6 (F f)) (live_fl s)) s.
 
 (* ops of the samples persisted by user goroutines: with_flusher = true => exactly the
    EndTest samples; with_flusher = false (raw recorder under the synchronized wrapper) =>
    EndIteration samples too, and the last one is the closing EndTest's *)
-Definition user_samples (s : state) : list Z := map s_ops (filter by_user (persisted (rc s))).
+Definition user_samples (s : state) : list Z := map s_ops (filter by_user (persisted (rc s))).  (* newest first *)
 
 Record stress_obs := mkSObs {
   so_blocked : bool;
   so_live : nat;
   so_late : nat;
+  so_overlap : nat;            (* cycles with samples of two flushers + flushers with samples in two cycles *)
   so_total : Z                 (* interval recorders: wrap-around sum of the counters persisted by
                                   EndTest; synchronized(raw): the counter persisted by the closing EndTest *)
 }.
 Definition model_obs_stress (c : cfg) (fuel : nat) (progs : list (list call)) : stress_obs :=
-  let s := drain c (run_rr c fuel (init progs)) in
-  mkSObs (negb (all_returnedb s)) (live_flushers s) O
+  let s := drain c (run_rr c fuel O (init progs)) in
+  mkSObs (negb (all_returnedb s)) (live_flushers s) O O
          (if with_flusher c then wrap64 (sumZ (user_samples s))
-          else match rev (user_samples s) with x :: _ => x | [] => 0 end).
+          else match user_samples s with x :: _ => x | [] => 0 end).
 
 (* ====================================================================== *)
 (* Oracles on the implementation's observations                            *)
@@ -537,10 +547,10 @@ Definition c16_ok_sys (cycles : nat) (prog : list call) (o : sys_obs) : bool :=
   Nat.eqb (o_flushers o) cycles && zlist_eqb (o_end o) (spec_end_samples false 0 prog).
 
 (* stress run: nothing blocked, no flusher left / no flusher event after the final
-   EndTest, at most one flusher per cycle, persisted total = sum of all increments *)
+   EndTest, at most one flusher per cycle (none persisting outside its cycle), persisted total = sum of all increments *)
 Definition c16_ok_stress (incs : list Z) (cycles flushers : nat) (o : stress_obs) : bool :=
   negb (so_blocked o) && Nat.eqb (so_live o) O && Nat.eqb (so_late o) O &&
-  Nat.leb flushers cycles && Z.eqb (so_total o) (wrap64 (sumZ incs)).
+  Nat.eqb (so_overlap o) O && Nat.leb flushers cycles && Z.eqb (so_total o) (wrap64 (sumZ incs)).
 
 (* ====================================================================== *)
 (* ---- reading the shape of the code off a lock-path table (Generated/LockPaths.v) ---- *)
